@@ -13,9 +13,15 @@ SUPPORT = ["theories/Proofs/QuantityP.v", "theories/Proofs/StoragesP.v", "theori
            "theories/Proofs/ExactP.v"]
 
 QUANTS = [("length", "Length"), ("velocity", "Velocity"), ("energy", "Energy"), ("angle", "Angle"),
-          ("information", "Information")]
+          ("information", "Information"), ("power", "Power")]
 TYPES = ["f64", "f32", "i32", "i64", "u32", "u64", "isize", "bigint", "biguint", "rational64", "bigrational"]
-BASES = ["si", "kgh"]
+BASES = ["si", "kgh", "ufs", "tiny", "ums"]
+
+
+def bases_for(ty):
+    """Base-unit sets per storage class: floats also get sub-multiples whose powers over/underflow (1e-15^3, 1e-24^2 in f32),
+    exact types one whose powers overflow a 32-bit ratio (10^6 squared): identical base units must never need those powers."""
+    return ["si", "kgh", "ufs", "tiny"] if is_float(ty) else ["si", "kgh", "ums"]
 
 
 def is_float(ty):
@@ -212,7 +218,7 @@ def run(ctx):
     h = Harness("c07", FEATURE_SETS["all"], prelude=prelude(BASES, TYPES))
     cases, meta, mlines = [], {}, []
     for ty in TYPES:
-        for bs in BASES:
+        for bs in bases_for(ty):
             U = T.sexp_list(t.base_unit_exprs(T.BASE_SETS[bs]))
             for qm, alias in QUANTS:
                 slot = h.slot(hist_slot(qm, alias, bs, ty))
